@@ -103,6 +103,7 @@ def outcome(raw):
 def observe(s, intent=None, styles=None, seps=None, lead="", trail="", full_run=False):
     """one event for TokenizerTrace"""
     from clikit.args import ArgvArgs, StringArgs
+    from clikit.args.token_parser import TokenParser
 
     ev = {
         "s": chars(s),
@@ -120,9 +121,13 @@ def observe(s, intent=None, styles=None, seps=None, lead="", trail="", full_run=
     }
     try:
         sa = StringArgs(s)
-        ev["obs"] = {"kind": "ok", "cls": "", "toks": [chars(t) for t in sa.tokens], "opt": [chars(t) for t in sa.option_tokens]}
+        toks0, opt0 = [chars(t) for t in sa.tokens], [chars(t) for t in sa.option_tokens]
+        other = StringArgs("zz 'q q' -- w")  # tokenising something else must not disturb the first object
+        TokenParser().parse("k k")
+        ev["obs"] = {"kind": "ok", "cls": "", "toks": toks0, "opt": opt0, "toksAfter": [chars(t) for t in sa.tokens]}
+        del other
     except Exception as e:  # noqa: every exception kind is an observation
-        ev["obs"] = {"kind": "exc", "cls": type(e).__name__, "toks": [], "opt": []}
+        ev["obs"] = {"kind": "exc", "cls": type(e).__name__, "toks": [], "opt": [], "toksAfter": []}
         sa = None
     if intent is not None:
         argv = ["prog"] + list(intent)
@@ -178,6 +183,7 @@ def run(ctx):
             same = (
                 ev["obs"]["kind"] == ("ok" if exp_ok else "exc")
                 and ev["obs"]["toks"] == r["toks"]
+                and ev["obs"]["toksAfter"] == r["toks"]
                 and ev["obs"]["opt"] == r["opt"]
                 and (not with_intent or (ev["argv"]["toks"] == r["intent"] and ev["argv"]["opt"] == r["opt"] and ev["outStr"] == ev["outArgv"]))
             )
